@@ -151,6 +151,15 @@ impl ResponseBuilder {
 #[non_exhaustive]
 pub struct UnsignedExtensionOutputs {}
 
+// Verification hook (off by default): lets an external harness construct the
+// non-exhaustive, field-less type so that response member 0x06 can be exercised.
+#[cfg(ctap_types_verif)]
+impl Default for UnsignedExtensionOutputs {
+    fn default() -> Self {
+        Self {}
+    }
+}
+
 #[cfg(test)]
 mod tests {
     use super::*;
